@@ -466,6 +466,14 @@ class Report:
         for k in self.known:
             if k["id"] in self.known_hits:
                 log(f"KNOWN-FINDING: property={self.prop} {k['id']}: {k['text']} ({self.known_hits[k['id']]} occurrences)")
+        # the evidence schema types some coverage keys: keep them what it says (a dict under "programs" once invalidated 8 files)
+        for k in ("evaluations", "distinct_nontrivial", "states", "transitions", "traces_validated_against_impl", "obligations", "discharged",
+                  "programs", "disagreements_checked"):
+            if k in self.cov and not (isinstance(self.cov[k], int) and not isinstance(self.cov[k], bool) and self.cov[k] >= 0):
+                raise ToolError(f"evidence key coverage.{k} must be a non-negative integer (schema), got {type(self.cov[k]).__name__}")
+        for k, t in (("rule", str), ("checker_cmd", str), ("explanation", str), ("samples", list), ("trusted_base", list), ("exhaustive", bool)):
+            if k in self.cov and not isinstance(self.cov[k], t):
+                raise ToolError(f"evidence key coverage.{k} must be {t.__name__} (schema)")
         ev = {"property_id": self.prop, "tier": self.tier, "seed": self.seed, "level": self.level,
               "coverage": self.cov, "assumptions": self.assumptions, "wall_s": round(wall, 2),
               "violations": len(self.violations)}
